@@ -5,7 +5,10 @@ Driver for the C15 family (`c15 …`):
   obsv    <leaf>                            observable_form
   canon   form <leaf>                       canonical_form  (form: reachable|observable|other)
   red     <leaf> labels… 6 keys method      model_reduction
-  minreal num den zeros poles tol           TransferFunction.minreal (one entry)
+  minreal num den zeros poles tol           TransferFunction.minreal (one entry, rational roots)
+  minrealc num den zeros poles tol          the same with Gaussian-rational roots (`re im` pairs): the model
+                                            runs over ℚ(i); `real(poly(…))` is the identity on its result,
+                                            which the driver certifies (imaginary parts exactly 0)
 <leaf> = `n p m dt A… B… C… D…` (as in the `ss` family).
 keys: `N` | `I k` | `S name` | `L cnt (I k | S name)…` | `R a b c` (`_` = None).
 Trusted glue.  The characteristic polynomial handed to the model (the external `numpy.poly`) is
@@ -17,7 +20,7 @@ import CtrlVerif.Model.Minreal
 
 namespace CtrlVerif.Driver.Canon
 
-open CtrlVerif CtrlVerif.Driver CtrlVerif.Reduce
+open CtrlVerif CtrlVerif.Driver CtrlVerif.Reduce CtrlVerif.Minreal
 
 /-- Faddeev–LeVerrier: coefficient list (highest power first) of the characteristic polynomial,
 together with the certificate `A M_n + a_n I = 0`. -/
@@ -79,14 +82,12 @@ def pForm : P DSS.Form := do
   else if t == "modal" then throw "form:modal-not-modelled"
   else pure .other
 
-def absQ (q : Q) : Q := if q < 0 then -q else q
+def ofQ (q : Q) : QI := ⟨q, 0⟩
 
-/-- `abs(z - p) < (tol or 1000 * max(eps, abs(z) * sqrt(eps)))`, `eps = 2^-52`. -/
-def closeQ (tol : Option Q) (z p : Q) : Bool :=
-  let t : Q := match tol with
-    | some t => if t = 0 then 1000 * max ((1 : Q) / 2 ^ 52) (absQ z / 2 ^ 26) else t
-    | none => 1000 * max ((1 : Q) / 2 ^ 52) (absQ z / 2 ^ 26)
-  decide (absQ (z - p) < t)
+def pQI : P QI := do
+  let re ← pRat
+  let im ← pRat
+  pure ⟨re, im⟩
 
 def pOptRat : P (Option Q) := do
   match (← peek?) with
@@ -150,8 +151,34 @@ def run : P String := do
       | d0 :: _ => decide (scale d0 (polyFromRoots ps) = den)
       | [] => false
     if !(okN && okD) then pure "model-error roots-contract"
+    -- hypothesis of `C15.minreal_sem_on`: on these lists the tolerance test identifies only equal roots
+    else if !rootsSeparated (closeQ tol) zs ps then pure "model-error roots-not-separated"
     else match minrealEntry (closeQ tol) ⟨num, den⟩ zs ps with
       | .ok f => pure ("ok " ++ showRats f.num ++ " " ++ showRats f.den)
+      | .error e => pure (showErr e)
+  | "minrealc" =>
+    let num ← pList pRat
+    let den ← pList pRat
+    let zs ← pList pQI
+    let ps ← pList pQI
+    let tol ← pOptRat
+    let numC := num.map ofQ
+    let denC := den.map ofQ
+    -- contract of `numpy.roots` over ℚ(i)
+    let okN := match numC with
+      | n0 :: _ => decide (trim (scale n0 (polyFromRoots zs)) = trim numC) || isZero numC
+      | [] => false
+    let okD := match denC with
+      | d0 :: _ => decide (scale d0 (polyFromRoots ps) = denC)
+      | [] => false
+    if !(okN && okD) then pure "model-error roots-contract"
+    else if !rootsSeparated (closeQI tol) zs ps then pure "model-error roots-not-separated"
+    else match minrealEntry (closeQI tol) ⟨numC, denC⟩ zs ps with
+      | .ok f =>
+        -- `real(poly(…))`: certified to be the identity here
+        if (f.num ++ f.den).all (fun c => c.im == 0) then
+          pure ("ok " ++ showRats (f.num.map (·.re)) ++ " " ++ showRats (f.den.map (·.re)))
+        else pure "model-error nonreal-result"
       | .error e => pure (showErr e)
   | c => throw s!"cmd:{c}"
 
